@@ -212,6 +212,17 @@ func (r *Run) report(results []*FuncResult, d *Discharger) int {
 					exit = 1
 					continue
 				}
+				if drv := r.driverFor(o.Name); drv != nil && hasTag(o.Tags, r.Prop) {
+					// not decided by the solvers, but a registered driver looks for the failure on the real code: a
+					// failing input found there is a violation whatever the proof status
+					path := r.writeReplayFile(o, fr, "obligation not discharged (solver "+res.Status+"); searching the real code with the registered replay driver")
+					if p2, confirmed := r.replayWith(o, fr, path, drv); confirmed {
+						fmt.Printf("VIOLATION property=%s replay=%s\n", r.Prop, p2)
+						r.violations = append(r.violations, o.Name)
+						exit = 1
+						continue
+					}
+				}
 				msg := fmt.Sprintf("%s: solver answered %s (%v) %s", o.Name, res.Status, res.Answers, truncate(res.Output, 300))
 				fmt.Println("UNDECIDED:", msg)
 				r.undecided = append(r.undecided, msg)
